@@ -25,6 +25,9 @@ type R<T> = Result<T, String>;
 
 #[derive(Clone)]
 struct Chain {
+    /// `DataFrame::aggregate` returned more columns than group + aggregate expressions
+    /// (implicit group-by expressions from functional dependencies; finding C48-1)
+    implicit_cols: bool,
     df: DataFrame,
     sql: String,
     cols: Vec<(String, Ty)>,
@@ -102,7 +105,7 @@ impl<'a> Cx<'a> {
                 )
             })
             .collect();
-        Ok(Chain { df, sql: format!("SELECT * FROM {}", t.name), cols, ordered: false, ops: vec![] })
+        Ok(Chain { implicit_cols: false, df, sql: format!("SELECT * FROM {}", t.name), cols, ordered: false, ops: vec![] })
     }
 
     /// a right-hand side for joins: another table with every column renamed to a unique name
@@ -128,12 +131,16 @@ impl<'a> Cx<'a> {
             ));
         }
         let df = df.select(exprs).map_err(e2s)?;
-        Ok(Chain { df, sql: format!("SELECT {} FROM {}", items.join(", "), t.name), cols, ordered: false, ops: vec![] })
+        Ok(Chain { implicit_cols: false, df, sql: format!("SELECT {} FROM {}", items.join(", "), t.name), cols, ordered: false, ops: vec![] })
     }
 
     async fn step(&mut self, ctx: &SessionContext, c: Chain) -> R<Chain> {
         let s = self.fresh("s");
-        let Chain { df, sql, cols, mut ops, .. } = c;
+        let Chain { df, sql, cols, mut ops, implicit_cols, .. } = c;
+        if implicit_cols {
+            // the column bookkeeping no longer matches: stop extending this chain
+            return Ok(Chain { implicit_cols, df, sql, cols, ordered: false, ops });
+        }
         let int_cols: Vec<String> = cols.iter().filter(|c| c.1 == Ty::Int).map(|c| c.0.clone()).collect();
         let k = self.rng.below(19);
         match k {
@@ -141,7 +148,7 @@ impl<'a> Cx<'a> {
                 let p = self.gen_expr(&cols, Ty::Bool, 2);
                 let e = df.parse_sql_expr(&p).map_err(e2s)?;
                 ops.push("filter");
-                Ok(Chain { df: df.filter(e).map_err(e2s)?, sql: format!("SELECT * FROM ({sql}) AS {s} WHERE {p}"), cols, ordered: false, ops })
+                Ok(Chain { implicit_cols: false, df: df.filter(e).map_err(e2s)?, sql: format!("SELECT * FROM ({sql}) AS {s} WHERE {p}"), cols, ordered: false, ops })
             }
             2 => {
                 let n = 1 + self.rng.below(3) as usize;
@@ -157,7 +164,7 @@ impl<'a> Cx<'a> {
                     ncols.push((name, ty));
                 }
                 ops.push("select");
-                Ok(Chain { df: df.select(exprs).map_err(e2s)?, sql: format!("SELECT {} FROM ({sql}) AS {s}", items.join(", ")), cols: ncols, ordered: false, ops })
+                Ok(Chain { implicit_cols: false, df: df.select(exprs).map_err(e2s)?, sql: format!("SELECT {} FROM ({sql}) AS {s}", items.join(", ")), cols: ncols, ordered: false, ops })
             }
             3 => {
                 // select_columns: a non-empty sub-sequence in random order
@@ -171,7 +178,7 @@ impl<'a> Cx<'a> {
                 }
                 let names: Vec<&str> = pick.iter().map(|c| c.0.as_str()).collect();
                 ops.push("select_columns");
-                Ok(Chain { df: df.select_columns(&names).map_err(e2s)?, sql: format!("SELECT {} FROM ({sql}) AS {s}", names.join(", ")), cols: pick, ordered: false, ops })
+                Ok(Chain { implicit_cols: false, df: df.select_columns(&names).map_err(e2s)?, sql: format!("SELECT {} FROM ({sql}) AS {s}", names.join(", ")), cols: pick, ordered: false, ops })
             }
             4 => {
                 let ty = *self.rng.pick(&[Ty::Int, Ty::Str, Ty::Bool]);
@@ -185,13 +192,13 @@ impl<'a> Cx<'a> {
                     let mut ncols = cols.clone();
                     ncols[i].1 = ty;
                     ops.push("with_column_replace");
-                    Ok(Chain { df: df.with_column(&name, e).map_err(e2s)?, sql: format!("SELECT {} FROM ({sql}) AS {s}", items.join(", ")), cols: ncols, ordered: false, ops })
+                    Ok(Chain { implicit_cols: false, df: df.with_column(&name, e).map_err(e2s)?, sql: format!("SELECT {} FROM ({sql}) AS {s}", items.join(", ")), cols: ncols, ordered: false, ops })
                 } else {
                     let name = self.fresh("w");
                     let mut ncols = cols.clone();
                     ncols.push((name.clone(), ty));
                     ops.push("with_column");
-                    Ok(Chain { df: df.with_column(&name, e).map_err(e2s)?, sql: format!("SELECT *, {t} AS {name} FROM ({sql}) AS {s}"), cols: ncols, ordered: false, ops })
+                    Ok(Chain { implicit_cols: false, df: df.with_column(&name, e).map_err(e2s)?, sql: format!("SELECT *, {t} AS {name} FROM ({sql}) AS {s}"), cols: ncols, ordered: false, ops })
                 }
             }
             5 => {
@@ -202,14 +209,14 @@ impl<'a> Cx<'a> {
                 let mut ncols = cols.clone();
                 ncols[i].0 = new.clone();
                 ops.push("with_column_renamed");
-                Ok(Chain { df: df.with_column_renamed(old.as_str(), &new).map_err(e2s)?, sql: format!("SELECT {} FROM ({sql}) AS {s}", items.join(", ")), cols: ncols, ordered: false, ops })
+                Ok(Chain { implicit_cols: false, df: df.with_column_renamed(old.as_str(), &new).map_err(e2s)?, sql: format!("SELECT {} FROM ({sql}) AS {s}", items.join(", ")), cols: ncols, ordered: false, ops })
             }
             6 if cols.len() >= 2 => {
                 let i = self.rng.below(cols.len() as u64) as usize;
                 let dropped = cols[i].0.clone();
                 let ncols: Vec<(String, Ty)> = cols.iter().filter(|c| c.0 != dropped).cloned().collect();
                 ops.push("drop_columns");
-                Ok(Chain { df: df.drop_columns(&[dropped.as_str()]).map_err(e2s)?, sql: format!("SELECT {} FROM ({sql}) AS {s}", Self::names(&ncols)), cols: ncols, ordered: false, ops })
+                Ok(Chain { implicit_cols: false, df: df.drop_columns(&[dropped.as_str()]).map_err(e2s)?, sql: format!("SELECT {} FROM ({sql}) AS {s}", Self::names(&ncols)), cols: ncols, ordered: false, ops })
             }
             7 | 8 => {
                 // aggregate
@@ -240,8 +247,11 @@ impl<'a> Cx<'a> {
                 }
                 let gexprs: Vec<Expr> = keys.iter().map(|k| col(k.0.as_str())).collect();
                 let gb = if keys.is_empty() { String::new() } else { format!(" GROUP BY {}", Self::names(&keys)) };
-                ops.push("aggregate");
-                Ok(Chain { df: df.aggregate(gexprs, aggs).map_err(e2s)?, sql: format!("SELECT {} FROM ({sql}) AS {s}{gb}", items.join(", ")), cols: ncols, ordered: false, ops })
+                ops.push(if keys.is_empty() { "aggregate_global" } else { "aggregate" });
+                let expected_cols = gexprs.len() + aggs.len();
+                let adf = df.aggregate(gexprs, aggs).map_err(e2s)?;
+                let implicit = adf.schema().fields().len() != expected_cols;
+                Ok(Chain { implicit_cols: implicit, df: adf, sql: format!("SELECT {} FROM ({sql}) AS {s}{gb}", items.join(", ")), cols: ncols, ordered: false, ops })
             }
             9 | 10 => {
                 let (ks, txt) = self.order_keys(&cols, None);
@@ -255,11 +265,11 @@ impl<'a> Cx<'a> {
                     q = format!("{q} LIMIT {fetch} OFFSET {skip}");
                     ops.push("limit");
                 }
-                Ok(Chain { df: d, sql: q, cols, ordered: true, ops })
+                Ok(Chain { implicit_cols: false, df: d, sql: q, cols, ordered: true, ops })
             }
             11 => {
                 ops.push("distinct");
-                Ok(Chain { df: df.distinct().map_err(e2s)?, sql: format!("SELECT DISTINCT * FROM ({sql}) AS {s}"), cols, ordered: false, ops })
+                Ok(Chain { implicit_cols: false, df: df.distinct().map_err(e2s)?, sql: format!("SELECT DISTINCT * FROM ({sql}) AS {s}"), cols, ordered: false, ops })
             }
             12 => {
                 let key = cols[self.rng.below(cols.len() as u64) as usize].0.clone();
@@ -267,6 +277,7 @@ impl<'a> Cx<'a> {
                 let sel: Vec<Expr> = cols.iter().map(|c| col(c.0.as_str())).collect();
                 ops.push("distinct_on");
                 Ok(Chain {
+                    implicit_cols: false,
                     df: df.distinct_on(vec![col(key.as_str())], sel, Some(ks)).map_err(e2s)?,
                     sql: format!("SELECT DISTINCT ON ({key}) {} FROM ({sql}) AS {s} ORDER BY {txt}", Self::names(&cols)),
                     cols,
@@ -303,7 +314,7 @@ impl<'a> Cx<'a> {
                 }
                 .map_err(e2s)?;
                 ops.push(name);
-                Ok(Chain { df: d, sql: format!("({lsql}) {kw} ({rsql})"), cols, ordered: false, ops })
+                Ok(Chain { implicit_cols: false, df: d, sql: format!("({lsql}) {kw} ({rsql})"), cols, ordered: false, ops })
             }
             15 if cols.len() >= 2 => {
                 // union_by_name with the same input, columns reversed and filtered
@@ -319,6 +330,7 @@ impl<'a> Cx<'a> {
                 ops.push(if distinct { "union_by_name_distinct" } else { "union_by_name" });
                 let all = Self::names(&cols);
                 Ok(Chain {
+                    implicit_cols: false,
                     df: d,
                     sql: format!(
                         "(SELECT {all} FROM ({sql}) AS {s}) {} (SELECT {all} FROM (SELECT {} FROM ({sql}) AS {s2} WHERE {p}) AS {s3})",
@@ -372,13 +384,13 @@ impl<'a> Cx<'a> {
                         format!("{lk} = {rk}{}", if extra { format!(" AND {l2} > {r2}") } else { String::new() }),
                     )
                 };
-                Ok(Chain { df: d, sql: format!("SELECT * FROM ({sql}) AS {s} {kw} ({}) AS {rs} ON {on}", right.sql), cols: ncols, ordered: false, ops })
+                Ok(Chain { implicit_cols: false, df: d, sql: format!("SELECT * FROM ({sql}) AS {s} {kw} ({}) AS {rs} ON {on}", right.sql), cols: ncols, ordered: false, ops })
             }
             _ => {
                 let p = self.gen_expr(&cols, Ty::Bool, 1);
                 let e = df.parse_sql_expr(&p).map_err(e2s)?;
                 ops.push("filter");
-                Ok(Chain { df: df.filter(e).map_err(e2s)?, sql: format!("SELECT * FROM ({sql}) AS {s} WHERE {p}"), cols, ordered: false, ops })
+                Ok(Chain { implicit_cols: false, df: df.filter(e).map_err(e2s)?, sql: format!("SELECT * FROM ({sql}) AS {s} WHERE {p}"), cols, ordered: false, ops })
             }
         }
     }
@@ -420,7 +432,41 @@ pub fn run(run: &mut Run, args: &Args) {
         for o in &chain.ops {
             run.count(&format!("op:{o}"));
         }
-        let sig_base = format!("ops={} sql=`{}` data=`{}`", chain.ops.join(">"), chain.sql, ds.describe());
+        // features of the chain that trigger known DataFrame defects (notes/C48.md)
+        let mut trig: Vec<&str> = vec![];
+        if chain.implicit_cols {
+            trig.push("implicit-group-by-columns");
+        }
+        if chain.ops.iter().any(|o| o.starts_with("union_by_name")) {
+            trig.push("union-by-name");
+        }
+        if chain.ops.iter().any(|o| *o == "distinct_on") {
+            trig.push("distinct-on");
+        }
+        if let Some(i) = chain.ops.iter().position(|o| *o == "aggregate_global") {
+            if chain.ops[i + 1..].iter().any(|o| *o == "filter") {
+                trig.push("global-aggregate-then-filter");
+            }
+        }
+        if let Some(i) = chain.ops.iter().position(|o| o.starts_with("union")) {
+            // a set operation / sort stacked on a DataFrame union
+            if chain.ops[i + 1..].iter().any(|o| o.starts_with("intersect") || o.starts_with("except") || *o == "sort" || o.starts_with("union")) {
+                trig.push("op-over-union");
+            }
+        }
+        if chain.ops.iter().any(|o| *o == "select" || o.starts_with("with_column")) {
+            trig.push("computed-column");
+        }
+        let sig_base = format!(
+            "{}ops={} sql=`{}` data=`{}`",
+            if trig.is_empty() { String::new() } else { format!("[{}] ", trig.join("+")) },
+            chain.ops.join(">"),
+            chain.sql,
+            ds.describe()
+        );
+        if chain.implicit_cols {
+            run.count("implicit_group_by_columns");
+        }
         // the SQL side, in a FRESH session
         let ctx2 = ds.fresh_ctx(DataSet::default_cfg());
         let sql_plan = match rtm.block_on(ctx2.state().create_logical_plan(&chain.sql)) {
@@ -437,9 +483,31 @@ pub fn run(run: &mut Run, args: &Args) {
         let df_plan = chain.df.logical_plan().clone();
         let ob = rtm.block_on(rt::run_logical(&ctx, &df_plan));
         let oa = rtm.block_on(rt::run_logical(&ctx2, &sql_plan));
+        if matches!(oa, rt::Outcome::Err(_)) && matches!(ob, rt::Outcome::Rows { .. }) {
+            // the SQL statement itself does not run: there is nothing to compare the DataFrame with
+            run.count("sql_side_fails");
+            if run.notes.len() < 12 {
+                run.note(&format!("sql side fails ({}): {}", rt::last_err(), chain.sql));
+            }
+            continue;
+        }
         match rt::same_outcome(&ob, &oa, chain.ordered, SchemaLevel::TypesExact) {
             Ok(()) => run.oracle(true, "", ""),
-            Err((what, detail)) => run.oracle(false, &format!("df-vs-sql:{what} {sig_base}"), &detail),
+            Err((what, detail)) => {
+                let ek = if what == "error" {
+                    let e = rt::last_err();
+                    if e.contains("No field named") {
+                        "(no-field)"
+                    } else if e.contains("SanityCheckPlan") {
+                        "(sanity-check)"
+                    } else {
+                        "(other)"
+                    }
+                } else {
+                    ""
+                };
+                run.oracle(false, &format!("df-vs-sql:{what}{ek} {sig_base}"), &format!("{detail} [{}]", rt::last_err()))
+            }
         }
         if let (rt::Outcome::Rows { schema: a, .. }, rt::Outcome::Rows { schema: b, .. }) = (&ob, &oa) {
             if a.iter().zip(b.iter()).any(|(x, y)| x.0 != y.0) {
